@@ -47,6 +47,15 @@ CONVERT = {
 }
 
 
+# keys a user may hand to sort(); none of them is monotone in `value`, so `best` cannot be read off a position afterwards
+SORT_KEYS = {
+    "nvars": lambda r: len(r.state),
+    "sum_state": lambda r: sum(r.state.values()),
+    "neg_value": lambda r: -r.value,
+    "abs_value": lambda r: abs(r.value),
+}
+
+
 def enc_state(s):
     return [[enc_label(k), v] for k, v in s.items()]
 
@@ -159,7 +168,7 @@ class World(BaseWorld):
             ("remove", w.get("remove", 3)), ("pop", w.get("pop", 3)), ("extend", w.get("extend", 3)), ("add", 2),
             ("iadd", w.get("extend", 3)), ("mul", 1.5), ("getitem", 1), ("getslice", 2),
             ("setitem", w.get("setitem", 2)), ("setslice", 1.5), ("delitem", w.get("setitem", 2)),
-            ("delslice", 1.5), ("clear", 0.7), ("sort", 1), ("copy", 1), ("filter", 1.5),
+            ("delslice", 1.5), ("clear", 0.7), ("sort", 1.5), ("copy", 1), ("filter", 1.5),
             ("filter_states", 1), ("apply_function", 1.5), ("convert_states", 1),
             ("to_boolean", 1), ("to_spin", 1), ("roundtrip", 0.7),
         ]
@@ -222,6 +231,11 @@ class World(BaseWorld):
                 op["i"] = self.gen_index(rng, n)
         elif kind == "delslice":
             op["s"] = self.gen_slice(rng, n)
+        elif kind == "sort":
+            if rng.random() < 0.5:
+                op["key"] = rng.choice(sorted(SORT_KEYS))
+            if rng.random() < 0.3:
+                op["reverse"] = True
         elif kind == "filter":
             op["f"] = rng.choice(sorted(FILTERS))
         elif kind == "filter_states":
@@ -576,14 +590,25 @@ class World(BaseWorld):
         self.guarded("clear", lambda: sh.clear(), lambda: impl.clear())
 
     def op_sort(self, op, a, impl, sh):
+        kw = {}
+        kname = op.get("key")
+        if kname:
+            kw["key"] = SORT_KEYS[kname]
+        if op.get("reverse"):
+            kw["reverse"] = True
         try:
-            impl.sort()
+            impl.sort(**kw)
         except Exception as e:
-            raise Violation("raises_where_list_accepts", "sort: %s: %s" % (type(e).__name__, e))
+            raise Violation("raises_where_list_accepts", "sort(%r): %s: %s" % (op, type(e).__name__, e))
         got = [_rec(r) for r in list.__iter__(impl)]
-        vals = [r[1] for r in got]
-        if any(vals[i] > vals[i + 1] for i in range(len(vals) - 1)):
-            raise Violation("sort_not_ordered", "values %r" % vals)
+        if kname:
+            ks = [SORT_KEYS[kname](self.mk(r)) for r in got]
+        else:
+            ks = [r[1] for r in got]
+        if op.get("reverse"):
+            ks = ks[::-1]
+        if any(ks[i] > ks[i + 1] for i in range(len(ks) - 1)):
+            raise Violation("sort_not_ordered", "sort(%r): keys %r" % ({k: op[k] for k in op if k in ("key", "reverse")}, ks))
         key = lambda r: (r[1], r[2], sorted(map(repr, r[0].items())))
         if sorted(got, key=key) != sorted(sh, key=key):
             raise Violation("sort_changed_elements", "got %r from %r" % (got, sh))
